@@ -146,10 +146,13 @@ func main() {
 			job{"burst", []string{"-seed", sd, "-mode", "64k", "-n", big}})
 		jobs = append(jobs, job{"stalled", []string{"-seed", sd}})
 		// concurrent first send: time-boxed; thorough: two independent processes
-		fsBudget := map[bool]string{false: "8", true: "40"}[thorough]
+		// (the number of rounds of one process is also capped by the descriptor limit: thorough uses more processes)
+		fsBudget := map[bool]string{false: "8", true: "20"}[thorough]
 		jobs = append(jobs, job{"firstsend", []string{"-seed", sd, "-n", fsBudget}})
 		if thorough {
-			jobs = append(jobs, job{"firstsend", []string{"-seed", fmt.Sprint(*seed + 1), "-n", fsBudget}})
+			for k := 1; k <= 3; k++ {
+				jobs = append(jobs, job{"firstsend", []string{"-seed", fmt.Sprint(*seed + uint64(k)), "-n", fsBudget}})
+			}
 		}
 		modes := []string{"down", "stalled", "garbling"}
 		if *sel == "c16" {
